@@ -44,7 +44,7 @@ PROPS = {
         "assumptions": ["a request counts as carrying the repository's credentials when its Authorization header is exactly Basic user:secret"],
     },
     "C17": {
-        "corr": [("prov", {"quick": 800, "thorough": 20000})],
+        "corr": [("prov", {"quick": 800, "thorough": 4000})],
         "trusted_base": [
             "parameters of the model, not verified: OpenPGP signature checking and clearsign framing (golang.org/x/crypto/openpgp), SHA-256, YAML parsing of the message block; the corollaries about tampering carry explicit hypotheses (SHA-256 does not collide on the inputs considered; the keyring accepts no other (text, signature) pair) -- 'no accepted mutant' over the generated mutants is a search result of the correspondence, not a theorem",
         ],
@@ -146,7 +146,7 @@ PROPS = {
         "race_build": True,
         "trusted_base": [
             "modelled, not verified: atomicity of one driver call (Create is create-if-absent: the memory driver's mutex, the API server's AlreadyExists for Secrets/ConfigMaps -- here client-go's fake clientset), the goroutine scheduler (the harness imposes the schedule at gates placed before every storage call and the cluster mutation; what happens between two gated calls of one operation is one step), faults and history limits (none in this model: pruning deletes records), install --replace, rollback and uninstall as concurrent parties",
-            "freedom from data races is checked by the Go race detector over a storage workload (thorough tier): testing, not proof",
+            "freedom from data races is checked by the Go race detector over a storage workload (a short one in the quick tier, a longer one in the thorough tier): testing, not proof",
         ],
         "assumptions": ["the model is compared with the implementation on the serialising backend (Secrets); on the memory backend only the property monitors run, because the memory driver hands out the stored objects themselves (see the known finding)",
                         "well-formedness of the history at quiescence, mutual exclusion of in-flight operations, one-creator-per-revision and losers-touch-nothing are proved for any number of operations, any schedule and any well-formed initial history; the exhaustive kernel evaluation of all 924 interleavings of every pair (and two-preemption schedules of triples) from four histories is kept as an independent check"],
